@@ -19,7 +19,7 @@ RULE = (
     "non-trivial = the screen has >=2 plates and the op is not a no-op on the model"
 )
 ASSUMPTIONS = ["revealing a set consisting only of unknown plate ids may either raise ValueError or return the screen unchanged", "refusal of all-zero values is judged only when every plate of the revealed set is all zero"]
-REQUIRED = {"constructor_cases_with_non_bool_mask": {"quick": 60, "thorough": 900}, "view_plate_counts_checked": {"quick": 500, "thorough": 8000}, "cli_refusals_checked": {"quick": 60, "thorough": 800}, "constructor_cases_with_unusual_values": {"quick": 40, "thorough": 600}, "reveals_with_negative_unknown_id": {"quick": 60, "thorough": 900}, "history_steps_checked": {"quick": 2500, "thorough": 40000}, "reveals_checked": {"quick": 600, "thorough": 10000}, "refusals_checked": {"quick": 100, "thorough": 1500}, "constructor_cases": {"quick": 150, "thorough": 2500}, "cli_steps": {"quick": 100, "thorough": 1500}, "earlier_stage_rechecks": {"quick": 10000, "thorough": 150000}, "branches": {"quick": 200, "thorough": 3000}, "in_place_reveals": {"quick": 150, "thorough": 2000}}
+REQUIRED = {"constructor_cases_with_a_library_size_plate": {"quick": 6, "thorough": 6}, "constructor_cases_with_non_bool_mask": {"quick": 60, "thorough": 900}, "view_plate_counts_checked": {"quick": 500, "thorough": 8000}, "cli_refusals_checked": {"quick": 60, "thorough": 800}, "constructor_cases_with_unusual_values": {"quick": 40, "thorough": 600}, "reveals_with_negative_unknown_id": {"quick": 60, "thorough": 900}, "history_steps_checked": {"quick": 2500, "thorough": 40000}, "reveals_checked": {"quick": 600, "thorough": 10000}, "refusals_checked": {"quick": 100, "thorough": 1500}, "constructor_cases": {"quick": 150, "thorough": 2500}, "cli_steps": {"quick": 100, "thorough": 1500}, "earlier_stage_rechecks": {"quick": 10000, "thorough": 150000}, "branches": {"quick": 200, "thorough": 3000}, "in_place_reveals": {"quick": 150, "thorough": 2000}}
 N_HIST = {"quick": 960, "thorough": 9600}
 
 
@@ -291,6 +291,25 @@ def run_shard(rec, tier, seed, shard, nshards):
                         rec.violation("C12/reveal/refused-legitimate", "healthy plate refused: %r" % (e,), w)
 
     # ------------------------------------------------ constructor clauses and set_observed
+    if shard in (2, 5):
+        # a plate of library size with ONE (or two) rows whose status differs from the other hundred thousand
+        from batchie.data import Screen as _S
+
+        for nbig, stray in ((150_000, 1), (420_000, 2)) if shard == 2 else ((100_003, 1),):
+            tn = np.array([["d%03d" % (i % 211), "d%03d" % ((i * 7 + 1) % 211)] for i in range(997)], dtype=str)[np.arange(nbig + 40) % 997]
+            pn_ = np.array(["big"] * nbig + ["small"] * 40, dtype=str)
+            for observed_majority in (True, False):
+                m_ = np.full(nbig + 40, observed_majority)
+                m_[rng.choice(nbig, size=stray, replace=False)] = not observed_majority
+                m_[nbig:] = bool(rng.random() < 0.5)
+                rec.case(("ctor-mixed-large", nbig, stray, observed_majority))
+                rec.count("constructor_cases_with_a_library_size_plate")
+                rec.count("oracle_evals")
+                try:
+                    _S(treatment_names=tn, treatment_doses=np.ones((nbig + 40, 2)), sample_names=np.array(["s%d" % (i % 5) for i in range(nbig + 40)], dtype=str), plate_names=pn_, observations=np.full(nbig + 40, 0.5), observation_mask=m_)
+                    rec.violation("C12/constructor/mixed-plate-accepted", "a screen whose %d-row plate has %d row(s) of the other observation status was constructed" % (nbig, stray), {"rows": nbig, "stray_rows": stray, "majority_observed": observed_majority})
+                except ValueError:
+                    pass
     n_con = {"quick": 30, "thorough": 400}[tier]
     for _ in range(n_con):
         kw = gen.realistic_screen_kwargs(rng, n_rows=(2, 30), n_plates=(1, 6), observed="random")
